@@ -437,7 +437,7 @@ PLAUSIBLE = {
     "mkdir": ["EACCES", "ENOSPC"], "mkdirat": ["EACCES", "ENOSPC"],
     "sendfile": ["EIO", "ENOSPC", "EINVAL"], "write": ["EIO", "ENOSPC"],
     "close": ["EIO"], "fstat": ["EIO"], "fstatat": ["EIO", "ENOMEM", "ENOENT"], "readlinkat": ["EIO", "ENOMEM", "ENOENT"],      # (ENOENT: a queue link removed under the daemon's feet)
-    "symlinkat": ["ENOSPC", "EIO"], "unlinkat": ["EIO"], "unlink": ["EIO"], "rmdir": ["EIO"],
+    "symlinkat": ["ENOSPC", "EIO", "EEXIST"], "unlinkat": ["EIO"], "unlink": ["EIO"], "rmdir": ["EIO"],
     "link": ["EMFILE", "ENOSPC"], "linkat": ["ENOSPC"], "ftruncate": ["EIO"], "scandir": ["ENOMEM", "EIO"],
     "read": ["EIO"], "access": ["EIO"], "fts_open": ["ENOMEM"],
 }
@@ -598,6 +598,7 @@ def mon_journal(steps, meta):
     wrong = set()       # stamps of configurations NOT in force
     wlabels = {}        # cfg id -> labels of the two write events
     wexpect = []        # (write step, label its line must carry or None for no line) since the last dump
+    dlabels = {}        # cfg id -> {ev4: 'deleted' label, ev5: 'forbidden' label, ev6: 'stored' label}
     qlabels = set()     # labels of the three queue outcomes, of every configuration of the script
     cpl = None          # length of the common parent of the watch roots (from the start line)
     xlabels = {}        # cfg id -> labels of the two execution events
@@ -608,6 +609,7 @@ def mon_journal(steps, meta):
             for t in st.tok[2:]:
                 if t[:4] in ("ev4=", "ev5=", "ev6=") and t[4:] not in ("-", "h"):
                     qlabels.add(unhexs(t[4:]))
+                    dlabels.setdefault(st.tok[1], {})[t[:3]] = unhexs(t[4:])
                 if t.startswith("ev0=") or t.startswith("ev1="):
                     xlabels.setdefault(st.tok[1], {})[t[:3]] = None if t[4:] == "-" else unhexs(t[4:])
                 if t.startswith("editors="):
@@ -691,6 +693,16 @@ def mon_journal(steps, meta):
                             and not any(x.isdigit() for x in f[:-1]) and not any(a[cpl:] == last for a in known_abs if len(a) >= cpl):
                         cands = sorted(a[cpl:] for a in known_abs if len(a) >= cpl and a.endswith("/" + last))
                         return "journal line %r: the path of a queue outcome is the queued path relative to the common parent of the watch roots (%s), not %r" % (l, cands[:2] or "?", last)
+                    # 'forbidden' means: it is there and may not be read.  A queue outcome labelled forbidden (by the
+                    # configuration in force, whose three outcome labels differ) for a path of which nothing exists any more
+                    # - not the file, not its directory - is mislabelled: that is 'deleted'
+                    dl = dlabels.get(inforce, {})
+                    if dl.get("ev5") and dl.get("ev5") not in (dl.get("ev4"), dl.get("ev6")) and dl["ev5"] in f[:-1] \
+                            and not any(x.isdigit() for x in f[:-1]) and not (xlabels.get(inforce) and dl["ev5"] in xlabels[inforce].values()) \
+                            and not (wlabels.get(inforce) and dl["ev5"] in wlabels[inforce].values()):
+                        full = "/w/" + last
+                        if full not in cur and not any(p.startswith(full + "/") for p in cur):
+                            return "journal line %r says access to %s was forbidden, but nothing of that name exists (it was deleted, its directory is gone too)" % (l, last)
                     if len(f) >= 2 and not f[-2].isdigit() and len(f) >= 3 and f[-2] == "":
                         return "journal line %r has an empty field" % l
                 if meta.get("stamps") and stamps:
@@ -705,6 +717,8 @@ def mon_journal(steps, meta):
                         return "journal says %r was deleted, but it is there and readable (%s bytes)" % (f[-1], src[2])
                     if "forb" in f[:-1] and src is not None and src[0] == "file" and src[4] == "r":
                         return "journal says access to %r was forbidden, but it is a readable regular file" % f[-1]
+                    if "forb" in f[:-1] and src is None and not any(p.startswith("/w/" + f[-1] + "/") for p in cur) and not f[-1].rsplit("/", 1)[-1] in PROJECTS:
+                        return "journal says access to %r was forbidden, but nothing of that name exists any more (it was deleted - with its directory)" % f[-1]
                 if len(f) >= 2 and not any(x in LABELS for x in f[:-1]) and meta.get("labels_all", True):
                     return "journal line without a configured label: %r" % l
             if not any(o.result in ("error", "crashed", None) for o in ops_between):
